@@ -48,3 +48,19 @@ Theorem c12_history : forall file ops, ops_ok [] ops ->
   map erase (run (init file) ops) = map erase (srun (sinit file) ops).
 Proof. exact StoreRefine.c01_refines_sorted_map. Qed.
 Print Assumptions c12_history.
+
+(* ---------------------------------------------------------------------------------------------- *)
+(* REGENERATED FROM THE SOURCE ON EVERY RUN (tools/gen -> Generated.g_code; Decisions.v): the decisions the model
+   takes at these points are the evaluations of the conditions the Go source has there, for all values of their
+   variables. *)
+From GK Require Import GExpr Generated Decisions.
+From Coq Require Import String.
+
+(* SetCollection: a nil comparator means bytes.Compare *)
+Theorem c12_nil_compare_is_default_is_source :
+  match body "Store.SetCollection" with
+  | SIf [] (GBin "==" (GVar "compare") GNil) [SAssign [GVar "compare"] "=" [GVar "bytes.Compare"]] [] :: _ => True
+  | _ => False
+  end.
+Proof. exact Decisions.nil_compare_is_default. Qed.
+Print Assumptions c12_nil_compare_is_default_is_source.
